@@ -335,6 +335,19 @@ func ruleStatsErr(r *Run) {
 			if good && !fromHandler {
 				good, what = false, "never the handler's result"
 			}
+			// every invocation of the handler in the serving function feeds this End (a branch that keeps the result
+			// in a variable of its own - `if herr := hd.handler(…); herr != nil` - reports success for a failed RPC)
+			if good && top != fn {
+				inEnd := map[ssa.Value]bool{}
+				for _, o := range errOrigins {
+					inEnd[o] = true
+				}
+				p.eachInstrRegion(top, func(_ *ssa.Function, x ssa.Instruction) {
+					if c, ok := x.(*ssa.Call); ok && calledField(c) == hf && !inEnd[c] {
+						good, what = false, "missing the result of the handler invocation at "+p.Pos(c.Pos())
+					}
+				})
+			}
 			r.check(good, key, in.Pos(), "End.Error is the handler invocation's result (or, in the deferred End, nil / the error the serving function returns before the handler ran)",
 				"End.Error is "+what+", not the error returned by the handler invocation: the stats handler sees the wrong outcome")
 		})
